@@ -118,6 +118,7 @@ type adv struct {
 	pkg   string
 	fixed string
 	id    string
+	plats []string // OVAL: the <platform> elements of the definition (default: the document's platform)
 }
 
 // ---- alpine ----
@@ -273,7 +274,15 @@ func ovalDoc(kind string, platform string, as []adv) []byte {
 	b.WriteString(`<oval_definitions xmlns="http://oval.mitre.org/XMLSchema/oval-definitions-5" xmlns:oval="http://oval.mitre.org/XMLSchema/oval-common-5">` + "\n<definitions>\n")
 	ns := `xmlns="http://oval.mitre.org/XMLSchema/oval-definitions-5#linux"`
 	for i, a := range as {
-		fmt.Fprintf(&b, `<definition class="patch" id="oval:verif:def:%d" version="1"><metadata><title>%s</title><affected family="unix"><platform>%s</platform></affected><description>generated</description><advisory><severity>Important</severity><issued date="2024-01-01"/></advisory></metadata><criteria operator="AND"><criterion comment="c" test_ref="oval:verif:tst:%d"/></criteria></definition>`+"\n", i, xmlEsc(a.id), xmlEsc(platform), i)
+		pl := a.plats
+		if pl == nil {
+			pl = []string{platform}
+		}
+		var pls strings.Builder
+		for _, p := range pl {
+			pls.WriteString("<platform>" + xmlEsc(p) + "</platform>")
+		}
+		fmt.Fprintf(&b, `<definition class="patch" id="oval:verif:def:%d" version="1"><metadata><title>%s</title><affected family="unix">%s</affected><description>generated</description><advisory><severity>Important</severity><issued date="2024-01-01"/></advisory></metadata><criteria operator="AND"><criterion comment="c" test_ref="oval:verif:tst:%d"/></criteria></definition>`+"\n", i, xmlEsc(a.id), pls.String(), i)
 	}
 	b.WriteString("</definitions>\n<tests>\n")
 	for i := range as {
@@ -388,6 +397,18 @@ func oracleRun(ctx context.Context, w *world, year int, byPlatform map[string][]
 		out = append(out, vs...)
 	}
 	return out, nil
+}
+
+// oracleParseDoc runs the real oracle updater (Fetch + Parse) on one OVAL
+// document holding the given definitions (each with its own platform list).
+func oracleParseDoc(ctx context.Context, w *world, name string, as []adv) ([]*claircore.Vulnerability, error) {
+	key := "linux.oracle.test/security/oval/" + name
+	w.put(key, 200, "application/xml", ovalDoc("rpm", "", as))
+	u, err := oracle.NewUpdater(2024, oracle.WithURL("http://"+key, "none"))
+	if err != nil {
+		return nil, err
+	}
+	return runUpdater(ctx, u, w.client(), noConfig)
 }
 
 // suseWorld serves the OVAL directory listing with the given file names.
